@@ -7,6 +7,7 @@ section handles."""
 import json
 import os
 from facts import AnalysisBroken, VERIF
+from paths import root_of
 from result import Result
 
 
@@ -118,6 +119,37 @@ def run(prog, tier):
     else:
         res.ok('per-object', 'c3d is not copyable (non-copyable base, no user copy operations)', 'include/ezc3d.h:%d' % c3d['line'], function='', expr='copy')
 
+    # (fs-path) every file the library opens is named by the caller: the path handed to a stream
+    # constructor/open is exactly a function parameter; no rename/remove/temporary files
+    FS_CALLS = {'rename', 'remove', 'std::rename', 'std::remove', 'tmpfile', 'std::tmpfile', 'fopen', 'std::fopen', 'freopen', 'unlink',
+                'mkstemp', 'link', 'symlink', 'truncate', 'open', 'creat'}
+    nopen = 0
+    for f in prog.repo_funcs():
+        for n in f.calls():
+            c = n['callee']
+            cq = c.get('classq', '')
+            is_stream_open = cq in ('std::basic_fstream', 'std::basic_ofstream', 'std::basic_ifstream', 'std::basic_filebuf') and \
+                (n['k'] in ('CXXConstructExpr', 'CXXTemporaryObjectExpr') or c['name'] == 'open') and c['nparams'] >= 1 and \
+                not (c.get('copy') or c.get('move'))
+            if is_stream_open:
+                nopen += 1
+                args = f.call_args(n) if n['k'] not in ('CXXConstructExpr', 'CXXTemporaryObjectExpr') else n['args']
+                kind, path = root_of(f, args[0])
+                bare = derived_only_from_params(f, args[0])
+                if bare:
+                    res.ok('fs-path', 'opens the path given by the caller', f.loc(n['id']), function=f.sig, expr='open@%d' % n['id'])
+                else:
+                    res.viol('fs-path', 'file opened under a derived path', f.loc(n['id']),
+                             'the library opens a file whose name is not exactly the caller\'s argument (%s %s): objects used from different threads may meet in the same file' % (kind, '.'.join(path)),
+                             function=f.sig, expr='open')
+            elif not c.get('class') and (c['qname'] in FS_CALLS or c['name'] in FS_CALLS) and not c['inrepo']:
+                if all(derived_only_from_params(f, a) for a in n.get('args', [])):
+                    res.ok('fs-path', c['qname'] + ' on a path derived from the caller\'s argument', f.loc(n['id']), function=f.sig, expr='%s@%d' % (c['qname'], n['id']))
+                    continue
+                res.viol('fs-path', c['qname'], f.loc(n['id']), 'file-system call %s: the library touches files the caller did not name' % c['qname'],
+                         function=f.sig, expr=c['qname'])
+    res.minimum('file-opening calls', nopen, 2)
+
     # (no-sharing) ----------------------------------------------------------------------------
     try:
         import p_c08
@@ -125,6 +157,22 @@ def run(prog, tier):
     except ImportError:
         pass
     return res
+
+
+def derived_only_from_params(f, i):
+    """the expression is built from the function's own parameters and literals only (through
+    single-definition locals, std::string concatenation and c_str())"""
+    import re as _re
+    from paths import Renderer
+    r = Renderer(f).render(i)
+    r = _re.sub(r'"[^"]*"', '', r)
+    if 'this' in r or 'local:' in r or '?' in r:
+        return False
+    for tok in _re.findall(r'[A-Za-z_][\w:]*', r):
+        if _re.match(r'^arg\d+$', tok) or tok.startswith('std::') or tok in ('c_str', 'data', 'default', 'char', 'const', 'unsigned', 'long', 'int'):
+            continue
+        return False
+    return True
 
 
 def field_writes(prog, cls, field):
